@@ -46,4 +46,53 @@ PROPS = {
         assumptions=["artifact paths are Clean, relative, without '..' components (good_art)",
                      "stage files are loaded by the real stage.FromFile; YAML is not modelled here (C17)"],
     ),
+    "C05": dict(
+        families=[dict(name="edits", args=["-specs", "6"]), dict(name="tree", args=["-specs", "15"])],
+        level_text="Theorems C05_iff (ContentsMatch is true exactly when the workspace entry, links followed, equals the "
+                   "tree the recorded checksum stands for and that tree is in the cache), C05_file_iff, C05_skip, "
+                   "C05_after_commit, C05_short_circuit_agrees, C05_same_contents (whole-buffer comparison = byte "
+                   "equality for every buffer size), over the model of status.go / same.go. Tied to the code by `dud "
+                   "status --debug` after every kind of single edit on committed trees (model vs JSON, and an "
+                   "independent truth computed in Coq from the observed workspace and cache).",
+        level_note="Hypotheses: collision-free hash on the strings involved, digests >= 3 chars, the manifest of a "
+                   "non-recursive artifact lists no directory (found necessary by machine-checked counterexamples). The "
+                   "8 MiB buffer boundary is covered by the theorem for every buffer size, not by big files. Human text "
+                   "rendering: see known findings.",
+        assumptions=["H injective on the byte strings involved (collision freedom)",
+                     "no symlinked directories on artifact paths; links into the cache are recognised lexically"],
+    ),
+    "C06": dict(
+        families=[dict(name="prestate", args=["-specs", "4,5"])],
+        level_text="Theorems C06_frame (a successful checkout `preserved` every pre-existing entry: unchanged, newly "
+                   "created, a matching link replaced by a copy of the very object, or a directory whose entries are "
+                   "preserved), C06_file_frame, C06_obstructed_fails, over the model of checkout.go for every cache, "
+                   "artifact, strategy and pre-existing workspace. Tied to the code by checking out over generated "
+                   "pre-existing states (absent, correct/other/dangling/foreign links, equal/different files, "
+                   "dir-for-file, file-for-dir, extra files) and evaluating `preserved` in Coq on the observed "
+                   "before/after trees, also on failing runs.",
+        level_note="The model is functional: on failure it returns no state; 'left intact on failure' is what the "
+                   "correspondence run observes (spec 4 on failing runs). O_EXCL on the copy target is a source fact.",
+        assumptions=["no symlinked directories on artifact paths"],
+    ),
+    "C08": dict(
+        families=[dict(name="pipe", args=["-specs", "18,23,5"])],
+        level_text="Theorems C08_once_and_order, C08_owners_visited_first, C08_scope, C08_cycle_run/commit/checkout/status, "
+                   "C08_cycle_never_executed, C08_terminates over the model of Index.Run/Commit/Checkout/Status for every "
+                   "index, target list, cache and stage-command semantics. Tied to the code by running generated DAGs "
+                   "(diamonds, skip connections, inputs nested in directory outputs) and cyclic graphs through the CLI with "
+                   "real shell commands that append to an execution log; the log is validated in Coq.",
+        level_note="graph/push/fetch share the skeleton in Go but only their traversal/exit code is modelled; the order "
+                   "of map iteration is replaced by list order and the theorems hold for every index order.",
+        assumptions=["stage commands behave as `rm -f dst && cat srcs > dst` in the correspondence runs"],
+    ),
+    "C19": dict(
+        families=[dict(name="corrupt", args=["-specs", "5"])],
+        level_text="Theorems C19_verified_copy, C19_tree_verified, C19_corrupt_fails, C19_success_no_corruption over "
+                   "the model of checkoutFile/checkoutDir: a copy checkout that succeeds placed only bytes hashing to the "
+                   "recorded checksums; a corrupted file object reachable through the manifests makes it fail. Tied to "
+                   "the code by damaging a reachable file object (flip first/middle/last byte, truncate, append) and "
+                   "running `dud checkout --copy`.",
+        level_note="Corruption of manifest objects is outside the property (files only).",
+        assumptions=[],
+    ),
 }
